@@ -900,3 +900,12 @@ impl<T: ?Sized + Trace + Hash> Hash for Cc<T> {
 impl<T: ?Sized + Trace + UnwindSafe> UnwindSafe for Cc<T> {}
 
 impl<T: ?Sized + Trace + RefUnwindSafe> RefUnwindSafe for Cc<T> {}
+
+#[cfg(rust_cc_verif)]
+impl<T: Trace> CcBox<T> {
+    /// Allocates a detached `CcBox` (no `Cc` owns it), like `new_for_tests`.
+    #[must_use]
+    pub(crate) fn verif_new(t: T) -> NonNull<CcBox<T>> {
+        state(|state| CcBox::new(t, state))
+    }
+}
